@@ -194,9 +194,107 @@ def oracle_suite(ctx):
     return s
 
 
+# ---------------------------------------------------------------------------- AST-level reference substitution (expression patterns)
+
+REF_CASES = [
+    ("({{v}} for {{v}} in {{it}})", "{{it}}"), ("({{v}} for {{v}} in {{it}})", "list({{it}})"), ("[{{v}} for {{v}} in {{it}}]", "list({{it}})"),
+    ("({{e}} for {{v}} in {{it}})", "map(fn, {{it}})"), ("foo({{x}})", "bar({{x}})"), ("{{a}} + {{b}}", "add({{a}}, {{b}})"), ("{{f}}({{x}})", "apply_to({{f}}, {{x}})"),
+    ("{{a}} < {{b}}", "lt({{a}}, {{b}})"), ("{{a}} if {{c}} else {{b}}", "pick({{c}}, {{a}}, {{b}})"), ("not {{x}}", "neg({{x}})"), ("{{a}}[{{i}}]", "get({{a}}, {{i}})"),
+    ("-{{x}}", "neg({{x}})"), ("lambda {{v}}: {{e}}", "fn"), ("{{a}} and {{b}}", "both({{a}}, {{b}})"), ("{{k}}: {{v}}", "{{k}}: {{v}}"),
+]
+# callee shapes in front of a sole generator argument: plain names, soft keywords used as names, attributes, subscripts, calls, parenthesised
+CALLEES = ["sum", "sorted", "type", "match", "case", "_", "print", "re.match", "self.type", "obj.case", "fs[0]", "get()", "(pick)", "tuple", "not_", "lambda_", "str.join"]
+
+
+def ref_sources():
+    out = []
+    for c in CALLEES:
+        out.append(f"kind = {c}(x for x in xs)\n")
+        out.append(f"def g(xs):\n    return {c}(x for x in xs)\n")
+        out.append(f"r = {c}((x for x in xs))\n")
+        out.append(f"r = {c}(x for x in xs)(1)\n")
+    out += ["g = (x for x in xs)\n", "def h(xs):\n    return (x for x in xs)\n", "def k(xs):\n    yield (x for x in xs)\n", "print(1, (x for x in xs))\n", "t = (x for x in xs), 2\n",
+            "if any(x for x in xs): pass\n", "assert all(x for x in xs), (x for x in xs)\n", "d = {1: (x for x in xs)}\n", "z = f(\n    x for x in xs\n)\n", "z = f(x for x in xs\n      )\n",
+            "w = [x for x in xs] + list(x for x in ys)\n", "y = await_(x for x in xs)\n", "for q in (x for x in xs):\n    pass\n", "with open_(x for x in xs) as fh:\n    pass\n",
+            "r = foo(1) + foo(2) * a[0]\n", "if not a < b:\n    z = -foo(3)\n", "v = (a + b) * c - (d + e)\n", "w = a + b if c else d[0]\n", "k = {'a': foo(1), 'b': [foo(2), foo(3)]}\n",
+            "m = lambda q: q + 1\nn = sorted(xs, key=lambda t: t[0])\n", "ok = p and q or not r\n", "u = x[1][2]\nv2 = -x[0] < y[0]\n", "class A:\n    def m(self):\n        return self.d[self.k] + foo(self.v)\n",
+            "val = foo(1) if foo(2) < foo(3) else -4\n", "a = b = foo(c + d)\n", "e = (yield_) + (foo(1))\n", "s = [foo(i) for i in r if i < 3]\n"]
+    return list(dict.fromkeys(out))
+
+
+def ast_reference(src, ys):
+    """the source tree with the nodes at the yielded ranges replaced by the (parsed) instantiated replacement; None when a range is not an expression node"""
+    from pyrefact import core
+
+    tree = ast.parse(src)
+    by_range = {}
+    for node in ast.walk(tree):
+        if isinstance(node, ast.expr) and hasattr(node, "end_lineno"):
+            rng = core.get_charnos(node, src)
+            by_range.setdefault((rng.start, rng.end), node)
+    targets = {}
+    for (rng, new) in ys:
+        node = by_range.get((rng.start, rng.end))
+        if node is None:
+            return None
+        try:
+            targets[id(node)] = ast.parse(new.strip(), mode="eval").body
+        except SyntaxError:
+            return None
+
+    class R(ast.NodeTransformer):
+        def visit(self, node):
+            if id(node) in targets:
+                return targets[id(node)]
+            return self.generic_visit(node)
+
+    return ast.dump(R().visit(tree))
+
+
+def reference_suite(ctx):
+    from pyrefact import pattern_matching as pm
+
+    s = Suite("sub-ast-reference", kind="oracle")
+    for src in ref_sources():
+        try:
+            ast.parse(src)
+        except SyntaxError:
+            continue
+        for pat, repl in REF_CASES:
+            try:
+                ys = yields_of(pat, repl, src, 0)
+            except Exception:  # noqa: BLE001
+                continue
+            if not ys:
+                continue
+            s.cases += 1
+            spans = sorted((y[0].start, y[0].end) for y in ys)
+            if any(a[1] > b[0] for a, b in zip(spans, spans[1:])) or any(not isinstance(y[1], str) for y in ys):
+                s.count("nested or overlapping matches (left to the scheduler correspondence)")
+                continue
+            want = ast_reference(src, ys)
+            if want is None:
+                s.count("no expression node at the range")
+                continue
+            try:
+                out = pm.sub(pat, repl, src)
+            except Exception as ex:  # noqa: BLE001
+                s.disagreements.append({"pattern": pat, "repl": repl, "src": src, "what": f"sub raised {ex!r}"})
+                continue
+            s.nt([pat, repl, src])
+            s.count("compared")
+            if ast_dump(out) != want:
+                s.disagreements.append({"pattern": pat, "repl": repl, "src": src, "out": out, "reference": True,
+                                        "what": f"sub({pat!r}, {repl!r}): the tree of the result is not the source tree with the matched nodes replaced"})
+    s.note = ("15 expression patterns (generators and comprehensions, calls, operators, subscripts, conditionals, lambdas, dict items) x sources that put the match in every syntactic position - a sole generator argument after "
+              "17 callee shapes (names, soft keywords used as names, attributes, subscripts, calls, parenthesised), returns, yields, tuples, multi-line calls, nested containers: for non-overlapping matches the tree of sub(...) "
+              "must equal the source tree with the node at each matched range replaced by the parsed replacement (reference built from the ast, no text splicing)")
+    return s
+
+
 def suites(ctx):
     common.import_pyrefact()
-    return [sub_suite(ctx), oracle_suite(ctx)]
+    return [sub_suite(ctx), oracle_suite(ctx), reference_suite(ctx)]
 
 
 def search(ctx, breaks):
